@@ -155,6 +155,9 @@ def cases(draw, convs=S.ALL_CONVS, unmarked=False):
                       "dims": [f"@{q}" for q in range(n_grid)] + ([tdim] if with_time else []),
                       "dtype": "f8", "fill": None})
     spec["vars"] = variables
+    if draw(st.integers(0, 2)) == 0:
+        # layer numbers: a plain coordinate on the depth dimension that is not a depth coordinate
+        spec["aux_coords"] = {"level": spec["depths"][0]["dim"]}
     spec["mode"] = draw(st.sampled_from(["decoded", "dask", "file"])) if with_time else draw(st.sampled_from(["raw", "decoded", "dask", "file"]))
     spec.update(draw(S.storage_options(conv)))
     route = draw(st.sampled_from(["function", "accessor", "accessor", "accessor"] if unmarked else
@@ -188,6 +191,10 @@ def check_case(case, ctx):
     what = f"ocean_floor via {case['route']}"
     sizes = specs.dim_sizes(spec)
     depth_dims = {dc["dim"] for dc in spec["depths"]}
+    for aux in spec.get("aux_coords") or {}:
+        ctx.check(aux not in out.variables, "C12.depth_dimension_removed",
+                  lambda: f"{what}: coordinate {aux} of the depth dimension is still in the result "
+                  f"(dims {out[aux].dims})")
     not_leading = False
     for var in spec["vars"]:
         name = var["name"]
